@@ -141,7 +141,7 @@ def materialise(d, lib):
             keep = []
             for n in nodes:
                 dcl = n.get("decl", "")
-                if any(w in dcl for w in ("clone()", "add(const Cls", "make(int v)", "dup()", "fresh(int v)")):
+                if any(w in dcl for w in ("clone()", "add(const Cls", "make(int v)", "dup()", "fresh(int v)", "blend(Cls")):
                     continue
                 if "declarations" in n:
                     n = dict(n, declarations=prune(n["declarations"]))
